@@ -23,6 +23,27 @@ theorem C02_nav_partial (t : Tree) (hf : NoFault t) (hv : ValidTree t) (p : Path
       { value := some (evalPath t p).2, err := none, trace := (evalPath t p).1 } :=
   run_path_eq_spec t hf hv p hg
 
+/-- **C02 (several location paths in one expression).** The operands of an operator, the arguments of a function: for
+    every list of supported paths, the code that evaluates them one after the other issues the requests of the first,
+    then those of the second, … — each path resolved from the context node exactly as if it stood alone, nothing of one
+    path left behind for the next — and leaves their values on the stack in source order, the machine otherwise as it
+    started (one empty context path, no predicate open). -/
+theorem C02_paths_in_sequence (t : Tree) (hf : NoFault t) (hv : ValidTree t) (ps : List PathE)
+    (hg : ∀ p ∈ ps, GoodPath p) :
+    ∃ s', exec true t (pathsCode ps) {} = .ok s' ∧ s'.trace.reverse = pathsTrace t ps ∧
+      s'.stack = (pathsValues t ps).reverse ∧ s'.paths = [{}] ∧ s'.predCount = 0 := by
+  obtain ⟨llf, h⟩ := exec_paths t hf hv ps hg {} rfl rfl rfl rfl
+  exact ⟨_, h, by simp, by simp, rfl, rfl⟩
+
+/-- that code is what the compiler writes for two paths under a binary operator and for two paths as arguments -/
+theorem C02_operands_code (op : BinOp) (p1 p2 : PathE) :
+    code (.bin op (.path p1) (.path p2)) = pathsCode [p1, p2] ++ [binPI op] := by
+  simp [code, pathsCode, List.append_assoc]
+
+theorem C02_arguments_code (f : Fn) (p1 p2 : PathE) :
+    code (.call f [.path p1, .path p2]) = pathsCode [p1, p2] ++ [.bltin f] := by
+  simp [code, codeList, pathsCode, List.append_assoc]
+
 theorem stepKeys_fst (t : Tree) (here : Path) (preds : List (Str × Operand)) :
     (stepKeys t here preds).1 = preds.map (fun kv => (kv.1, (operandValue t here kv.2).1)) := by
   induction preds with
